@@ -41,7 +41,7 @@ def required_counters(tier):
         "nest.compared": 1500,
         "nest.empty_intersection": 300,
         "nest.both_variadic": 100,
-        "union.compared": 100,
+        "union.compared": 100, "generic_array_types.compared": 50,
         "typevar.compared": 30,
         "scalar.kept": 20,
         "scalar.dropped": 50,
@@ -368,6 +368,105 @@ def law_typevars(rec):
                     rec.violation("typevar", {"law": inst}, f"{cname}[{tv!r},{s!r}] != {cname}[{meaning},{s!r}]: {first_diff(v1, v2)}", mechanism="typevar-accepts-differently")
 
 
+def law_nesting_regex(rec):
+    """user categories whose `dtypes` is a compiled regular expression (documented), nested with string categories in
+    both orders.  Where the library refuses the construction (ValueError) nothing is judged - whether a regex counts as
+    overlapping is not stated (open corner); where it builds, it accepts exactly the intersection, like any nesting"""
+    import re
+
+    import jaxtyping
+
+    N = np.ndarray
+    names = sorted(universe())
+    for pattern in ("float.*", "u?int(8|16)", ".*32", "(bool|complex64)"):
+        rx = re.compile(pattern)
+        R = type("Rx", (jaxtyping.AbstractDtype,), {"dtypes": rx})
+        match = [n for n in names if rx.fullmatch(n) or rx.match(n)]
+        for d in ("Float32", "Float", "Int", "UInt8", "Inexact", "Bool", "Num", "Int32"):
+            D = getattr(jaxtyping, d)
+            dn = names_of(d)
+            for order in ("regex-outside", "regex-inside"):
+                inst = ("nest-regex", pattern, d, order)
+                rec.case(inst, True)
+                if order == "regex-outside":
+                    g, nested = build(lambda: R[D[N, "a"], "b"])
+                else:
+                    g, nested = build(lambda: D[R[N, "a"], "b"])
+                if g == "valueerror":
+                    rec.open_corner("regex-category-nesting-refused")
+                    continue
+                if g != "ok":
+                    rec.violation("nesting", {"law": inst}, f"nesting a regex category ({pattern}) with {d} ({order}) raised {g}", mechanism="nest-regex-build-" + g)
+                    continue
+                # what both parts accept: dtype names of d that the regex matches (re.match semantics, as the library uses)
+                inter = [n for n in dn if rx.match(n)]
+                if not inter:
+                    rec.violation("nesting", {"law": inst}, f"regex category {pattern} and {d} have no dtype in common, yet the nesting ({order}) was built", mechanism="nest-regex-empty-intersection-built")
+                    continue
+                I = type("I", (jaxtyping.AbstractDtype,), {"dtypes": list(inter)})
+                flat = I[N, "b a"]
+                v1, v2 = accept_vec(nested), accept_vec(flat)
+                rec.count("nest.regex_compared")
+                if v1 != v2:
+                    rec.violation("nesting", {"law": inst}, f"regex category {pattern} nested with {d} ({order}) does not accept exactly the common dtypes {inter[:6]}: {first_diff(v1, v2)}", mechanism="nest-regex-accepts-differently")
+
+
+def law_generic_array_types(rec):
+    """array types that are parameterised generics (numpy.typing.NDArray[...], a subscripted typing.Generic class) mean
+    their origin class - written directly, as member of a union, or as bound / constraint of a TypeVar"""
+    import numpy.typing as npt
+
+    import jaxtyping
+
+    T_ = typing.TypeVar("T_")
+
+    class Box(typing.Generic[T_]):
+        shape = (2,)
+        dtype = "float32"
+
+    gens = [("NDArray[Any]", npt.NDArray[typing.Any], np.ndarray), ("NDArray[float32]", npt.NDArray[np.float32], np.ndarray), ("Box[int]", Box[int], Box)]
+    extra = [Box()]
+    for cname in ("Float", "Shaped", "Int"):
+        C = getattr(jaxtyping, cname)
+        for gname, G, origin in gens:
+            for s in ("a", "*v", ""):
+                spellings = {
+                    "direct": lambda: C[G, s],
+                    "union": lambda: C[typing.Union[G, real.Duck], s],
+                    "pep604": lambda: C[G | real.Duck, s],
+                    "typevar-bound": lambda: C[typing.TypeVar("TB", bound=G), s],
+                    "typevar-constraints": lambda: C[typing.TypeVar("TC", G, real.Duck), s],
+                }
+                meaning = {
+                    "direct": lambda: C[origin, s],
+                    "union": lambda: typing.Union[C[origin, s], C[real.Duck, s]],
+                    "pep604": lambda: typing.Union[C[origin, s], C[real.Duck, s]],
+                    "typevar-bound": lambda: C[origin, s],
+                    "typevar-constraints": lambda: typing.Union[C[origin, s], C[real.Duck, s]],
+                }
+                for sp in spellings:
+                    inst = ("generic-array-type", cname, gname, s, sp)
+                    rec.case(inst, True)
+                    g1, lhs = build(spellings[sp])
+                    g2, rhs = build(meaning[sp])
+                    if g1 != g2:
+                        rec.violation("generic", {"law": inst}, f"{cname}[<{gname} as {sp}>, {s!r}] builds as {g1}, with the origin class written out as {g2}", mechanism="generic-array-type-build-" + g1)
+                        continue
+                    if g1 != "ok":
+                        continue
+                    global _VALUES
+                    values()
+                    saved = _VALUES
+                    _VALUES = saved + extra
+                    try:
+                        v1, v2 = accept_vec(lhs), accept_vec(rhs)
+                    finally:
+                        _VALUES = saved
+                    rec.count("generic_array_types.compared")
+                    if v1 != v2:
+                        rec.violation("generic", {"law": inst}, f"{cname}[<{gname} as {sp}>, {s!r}] differs from the same with the origin class written out: {first_diff(v1, v2)}", mechanism="generic-array-type-accepts-differently")
+
+
 def law_aliases(rec):
     import jax
     import jax.typing
@@ -575,6 +674,10 @@ def run_shard(rec, seed, shard, tier):
         law_any_arraylike(rec)
     if shard["i"] == 5:
         law_prng_impls(rec)
+    if shard["i"] == 6:
+        law_nesting_regex(rec)
+    if shard["i"] == 7:
+        law_generic_array_types(rec)
     rec.info["nest_space"] = idx if shard["i"] == 0 else 0
     rec.sample({"law": "nesting", "instance": ["Float", "Shaped", "a b", "*v", "ndarray"]})
 
